@@ -58,9 +58,15 @@ func ruleF2(p *Prog) *RuleResult {
 	bcPtr := types.NewPointer(bct)
 
 	// ---- (a) cardinality coherence ----
-	for _, f := range p.sourceFns() {
+	// unsettled: unexported builders that return the bitmap container they filled with its cardinality still
+	// to be settled (one result of type *bitmapContainer, the container itself returned on every path). The
+	// obligation travels with the result: each call of such a builder counts as a write of the words of the
+	// value it returns, in the caller.
+	unsettled := map[*ssa.Function]bool{}
+	var analyzeA func(f *ssa.Function, report bool) bool
+	analyzeA = func(f *ssa.Function, report bool) (grew bool) {
 		if fnPkgPath(f) != modPath {
-			continue
+			return false
 		}
 		type ev struct {
 			ins ssa.Instruction
@@ -108,6 +114,9 @@ func ruleF2(p *Prog) *RuleResult {
 							}
 						}
 						continue
+					}
+					if c := x.Call.StaticCallee(); c != nil && unsettled[c] {
+						wb = append(wb, ev{x, x})
 					}
 					var callees []*ssa.Function
 					args := x.Call.Args
@@ -157,7 +166,7 @@ func ruleF2(p *Prog) *RuleResult {
 			}
 		}
 		if len(wb) == 0 {
-			continue
+			return false
 		}
 		perX := map[ssa.Value]int{}
 		for _, w := range wb {
@@ -209,11 +218,52 @@ func ruleF2(p *Prog) *RuleResult {
 				}
 			}
 			if bad != "" {
+				// handed to the caller unsettled?
+				hand := f.Signature.Results().Len() == 1 && types.Identical(f.Signature.Results().At(0).Type(), bcPtr) && !token.IsExported(f.Name()) && f.Parent() == nil
+				nret := 0
+				for _, b := range f.Blocks {
+					if r, ok := b.Instrs[len(b.Instrs)-1].(*ssa.Return); ok {
+						nret++
+						if len(r.Results) != 1 || stripAssert(r.Results[0]) != x {
+							hand = false
+						}
+					}
+				}
+				if hand && nret > 0 {
+					if !unsettled[f] {
+						unsettled[f] = true
+						grew = true
+					}
+					if report {
+						res.ok(c, p.pos(f.Pos()), "an unexported builder that returns this container on every path: the cardinality is the caller's to settle, and each call site is checked as a write of the words of its result")
+					}
+					continue
+				}
+			}
+			if !report {
+				continue
+			}
+			if bad != "" {
 				res.bad(c, p.pos(f.Pos()), bad)
 			} else {
 				res.ok(c, p.pos(f.Pos()), fmt.Sprintf("%d word write(s), cardinality written on every following path", perX[x]))
 			}
 		}
+		return grew
+	}
+	for iter := 0; iter < 4; iter++ {
+		grew := false
+		for _, f := range p.sourceFns() {
+			if analyzeA(f, false) {
+				grew = true
+			}
+		}
+		if !grew {
+			break
+		}
+	}
+	for _, f := range p.sourceFns() {
+		analyzeA(f, true)
 	}
 
 	// ---- (b) lazy values are repaired before they escape ----
